@@ -296,7 +296,7 @@ func c18FakePeer(conn net.Conn, sc []c18Txn) {
 }
 
 func genC18(maxTxn, maxR int) [][]c18Txn {
-	// verdict vectors over {250, 450, 550}, some recipients refused at RCPT
+	// verdict vectors over {250, 450, 550, 421 (a per-recipient verdict like any other in LMTP)}, some recipients refused at RCPT
 	var txns []c18Txn
 	names := []string{"a", "b", "c"}
 	var gen func(cur []c18Rcpt)
@@ -310,7 +310,7 @@ func genC18(maxTxn, maxR int) [][]c18Txn {
 			return
 		}
 		n := names[len(cur)]
-		for _, r := range []c18Rcpt{{Name: n, Code: 250}, {Name: n, Code: 450}, {Name: n, Code: 550}, {Name: n, Refused: true}} {
+		for _, r := range []c18Rcpt{{Name: n, Code: 250}, {Name: n, Code: 450}, {Name: n, Code: 550}, {Name: n, Code: 421}, {Name: n, Refused: true}} {
 			gen(append(cur, r))
 		}
 	}
@@ -468,10 +468,10 @@ func init() {
 		csCov := clientSessionEngine(run, tier)
 		run.Finish("model_checking", evid.Coverage{
 			"clientsession": csCov,
-			"states": mc.Distinct, "transitions": mc.Generated,
+			"states":        mc.Distinct, "transitions": mc.Generated,
 			"traces_validated_against_impl": len(judged), "scenarios": len(scs),
 			"samples": samples, "checker_cmd": mc.Cmd,
-		}, []string{"verdict vectors over {250, 450, 550}, recipients refused at RCPT, 1..3 transactions per connection, with and without Reset in between, LMTPData with callback and Data without",
+		}, []string{"verdict vectors over {250, 450, 550, 421 (a per-recipient verdict like any other in LMTP)}, recipients refused at RCPT, 1..3 transactions per connection, with and without Reset in between, LMTPData with callback and Data without",
 			"the client's SubmissionTimeout is set to 1.5 s so that a Close waiting for replies that never come returns an error instead of blocking for 12 minutes"})
 	}
 }
